@@ -1,6 +1,6 @@
 (* C09/Driver.v — entry point of the correspondence run: the generic driver of C09/Model.v
    instantiated with the byte-level line recogniser of C09/Grammar.v. *)
-From RM Require Import Base.Word C08.Model C11.Model C09.Model C09.Grammar.
+From RM Require Import Base.Word C08.Model C11.Model C09.Model C09.Grammar C09.Circular.
 Open Scope Z_scope.
 
 Definition cstate := st rle pst.
@@ -199,3 +199,71 @@ Definition run_async (lines : list rle) (tail : Z) (chunks : list Z) : sym_out *
    | Next _ => none 3 0 0
    | StPanic t => none 2 t 0
    end, tr).
+
+(* ------------------------------------------------------------------ round 5: the run on real bytes (C09/Circular.v).
+   The byte-level loop [bstep] with the concrete recogniser; [inp] are the bytes of the input (the OCaml glue expands the
+   run-length encoded case).  What only this run can predict is the CONTENT of the memory outside data(): the slice
+   `buf.space()` the reader is handed still holds whatever earlier reads, shifts (memmove) and grows (zero fill) left there.
+   The harness reader looks at the slice before it writes into it; both sides fold (3, length, first 32 bytes, last 32 bytes)
+   of every offered slice into a hash. *)
+Definition cbst := bst rle pst.
+Definition cbstep : cbst -> bres rle pst := bstep rle cllen pst recog_pst bump_pst lineno_pst.
+Definition SPY_K : Z := 32.
+
+Definition spy (h : Z) (sl : list Z) : Z :=
+  let n := zlength sl in
+  let h1 := mix (mix h 3) n in
+  let h2 := fold_left mix (zfirstn SPY_K sl) h1 in
+  fold_left mix (zskipn (n - SPY_K) sl) h2.
+
+(* the slice offered by the read() of this iteration: space() after the recovery block *)
+Definition spy_step (h : Z) (x : cbst) : Z :=
+  let x1 := if pr (x_s x) then b_recovery rle cllen pst bump_pst x else x in
+  spy h (bspace_slice (x_b x1)).
+
+Fixpoint biter_tr (p : positive) (x : cbst) (h : Z) : bres rle pst * Z :=
+  match p with
+  | xH => (cbstep x, spy_step h x)
+  | xO q => match biter_tr q x h with
+            | (BNext x1, h1) => biter_tr q x1 h1
+            | rh => rh
+            end
+  | xI q => let h0 := spy_step h x in
+            match cbstep x with
+            | BNext x1 => match biter_tr q x1 h0 with
+                          | (BNext x2, h2) => biter_tr q x2 h2
+                          | rh => rh
+                          end
+            | r => (r, h0)
+            end
+  end.
+
+Record bytes_out := {
+  bo_kind : Z; bo_code : Z; bo_line : Z;     (* as in sym_out *)
+  bo_cb : Z;                                 (* bytes the callback was given *)
+  bo_cbok : bool;                            (* ... and they are the first bo_cb bytes of the input *)
+  bo_left : Z;                               (* bytes still in data() *)
+  bo_spy : Z                                 (* hash of the space() slices offered to the reader *)
+}.
+
+Fixpoint list_eqb (a b : list Z) : bool :=
+  match a, b with
+  | [], [] => true
+  | x :: a', y :: b' => (x =? y) && list_eqb a' b'
+  | _, _ => false
+  end.
+
+Definition run_bytes (lines : list rle) (tail : Z) (sch : list Z) (inp : list Z) : bytes_out :=
+  let s0 := init_st rle cllen pst init_pst lines tail sch in
+  if negb (zlength inp =? input_len rle cllen lines tail) then Build_bytes_out 2 (-3) 0 0 false 0 0 else
+  match biter_tr (fuel_for rle cllen lines tail) (binit rle pst s0 inp) MIX_INIT with
+  | (BDone r x, h) =>
+      let ok := list_eqb (x_cb x) (zfirstn (zlength (x_cb x)) inp) in
+      let mk k c l := Build_bytes_out k c l (zlength (x_cb x)) ok (zlength (bdata (x_b x))) h in
+      match r with
+      | ROk _ => mk 0 0 0
+      | RErr c l => mk 1 c l
+      end
+  | (BNext _, h) => Build_bytes_out 3 0 0 0 false 0 h
+  | (BPanic t, h) => Build_bytes_out 2 t 0 0 false 0 h
+  end.
